@@ -17,7 +17,7 @@ CONFIG = {
         "model/RulesWrite.v and model/RulesRead.v are hand-written models of fields.go buildField/buildProperty and of schema_from_proto.go messageProperties/buildSchemaProperty/buildScalarType/buildFromStringProto/wktSchema/buildEnumFieldSchema/buildMessageFieldSchema; both are tied to the code on every run: write_object against the annotations the real compiler emits, read_object (on those observed annotations) against the real reflector's ToJ5Root",
         "'the declared schema' is compared in the normal form RulesRead.norm_prop: exclusive flags that are false or have no bound are dropped (norm_int, proved meaning-preserving), absent enum / bytes rules equal empty rules, array rules are reported (empty) whenever items carry a constraint, enum option names in short form, primaryKey = false equals no entity type, a primary key is required, descriptions as commentDescription cleans them",
         "per compile unit one generated enum (2-5 options, default or explicit prefix, optional explicit UNSPECIFIED), one object and one oneof are the reference targets; enum info fields and option info are not generated; rules of object / oneof / timestamp / float fields and any.types are not generated (the compiler implements none of them)",
-        "declarations come from j5s text: integer bounds are non-negative, rules messages are never present-but-empty",
+        "three quarters of the compile units go through j5s text, one quarter through the source AST (lib/verifshim/scha: negative integer bounds, present-but-empty rules messages)",
     ],
     "mult_search": 3,
     "refuted": ["C04_key_custom_refuted", "C04_key_informal_refuted", "C04_key_listrules_refuted", "C04_array_key_refuted",
